@@ -29,7 +29,7 @@ ASSUMPTIONS = [
     "grids inside the C13 domain (>= 2 states per half-axis); n-d grids of at most 15 points per axis (2-d) / 9 (3-d)",
 ]
 REQUIRED_COUNTERS = ["rate_comparisons_1d", "intensity_checks", "tiling_checks", "nd_cell_comparisons", "nd_row_sums",
-                     "grid_init_postconditions"]
+                     "grid_init_postconditions", "infinite_variation_copula_chains"]
 MIN_NONTRIVIAL = {"quick": 60, "thorough": 400}
 SHARD_TIMEOUT = {"quick": 900, "thorough": 7200}
 
@@ -62,12 +62,8 @@ def gen_cases(tier, seed):
         kind = kinds[j % 4]
         fams = [str(rng.choice(["HEM", "MERTON", "VG", "CGMY"])) for _ in range(dim)]
         cm = W.gen_copula_model_spec(rng, dim=dim, kind=kind, families=fams)
-        for ms in cm["margins"]:
-            # finite-variation margins only: for infinite variation the public constructor runs a pool of nested nquad
-            # integrations (about 100 s per chain) -- that path is exercised by C04's thorough tier
-            if ms["family"] == "CGMY" and ms["params"]["y"] >= 1.0:
-                ms["params"]["y"] = W.r6(rng.uniform(0.05, 0.95))
-                ms["branch"] = "0<y<1"
+        # infinite-variation models in dimension 2 (every third 2-d case); the 3-d constructor is too slow for them
+        W.limit_variation(rng, cm, allow_infinite=(dim == 2 and j % 3 == 1))
         for ms in cm["margins"]:  # keep two-sided, not too thin margins
             if ms["family"] == "MERTON":
                 ms["params"]["mu_j"] = min(ms["params"]["mu_j"], 0.05)
@@ -278,6 +274,8 @@ def _run_nd(case, R):
     label = W.copula_label(cm)
     try:
         model, grid, g = C.build_grid_and_model(cm, case["grid"], lev)
+        if not model.jump_of_finite_variation():
+            R.hit("infinite_variation_copula_chains")
     except (G.OutsideDomain, ValueError) as exc:
         R.skip("outside-domain: " + type(exc).__name__)
         return
